@@ -105,6 +105,30 @@ def c09_decls(tier, seed=0):
             # as array elements: stride given / missing
             for stride in (None, tot + 3):
                 add(W, [Field("f", T_u(tot), rl, array=(2, stride))], f"list {rl} array stride {stride}")
+    # custom-typed fields (bitenum, Option<bitenum>, nested bitfield): the type's raw width must equal the bits selected,
+    # whatever the access specifier (a write-only field has no getter whose type check would catch a mismatch)
+    for W in (16, 32) if tier == "quick" else (16, 24, 32, 128):
+        for tw in (2, 8, 16):
+            for n in sorted({tw, tw - 1, tw + 1, 8, 16} - {0}):
+                if n < 1 or n > W:
+                    continue
+                for acc_ in ("rw", "w", "r"):
+                    for kind in ("enum", "optenum", "nested"):
+                        k[0] += 1
+                        pid = f"a{k[0]:04d}"
+                        if kind == "nested":
+                            inner = Struct(f"N{pid}", tw, [Field("v", T_u(tw), [(0, tw)])])
+                            ty, enums, structs = FT("nested", tw, inner), [], [inner]
+                        else:
+                            total = 1 << tw
+                            if kind == "enum" and tw > 8:
+                                continue
+                            vals = list(range(total)) if kind == "enum" else [0, total - 1]
+                            e = Enum(f"X{pid}", tw, [(f"V{i}", v) for i, v in enumerate(vals)], exhaustive="true" if kind == "enum" else None)
+                            ty, enums, structs = FT(kind, tw, e), [e], []
+                        st = Struct(f"A{pid}", W, [Field("f", ty, [(0, n)], access=acc_)])
+                        out.append(Program(pid, enums=enums, structs=structs + [st], props=("C09",),
+                                           note=f"{kind} of {tw} bits in a {n}-bit field, access {acc_}"))
     return out
 
 
